@@ -10,6 +10,7 @@ import time
 
 import numpy as np
 
+from harness.gen import c16_extra as X
 from harness.gen import cachekey as K
 from harness.gen import datasets as G
 from harness import util
@@ -31,6 +32,8 @@ REQUIRED = [
     'Ems.C16.stream_injective_partial', 'Ems.C16.stream_not_injective',
     'Ems.C16.marshal_flags_matter',
     'Ems.C16.ugrid_edge_coordinates_are_geometry', 'Ems.C16.edit_value_changes_stream_any_storage',
+    'Ems.C16.hash_fields_generated', 'Ems.C16.hash_loop_generated', 'Ems.C16.trailer_generated',
+    'Ems.C16.hash_helpers_generated', 'Ems.C16.hashVar_eq_fields', 'Ems.C16.trailer_eq_fields',
 ]
 RULE = ('base datasets of all five convention classes from harness/gen/datasets.py (in memory and after a netCDF '
         'round trip, geometry variables enriched with string / int / float / numpy scalar / numpy array attributes; '
@@ -50,6 +53,14 @@ RULE = ('base datasets of all five convention classes from harness/gen/datasets.
         'configurations exercise the inventories\' error branches; equal-geometry probes (fresh attribute objects, '
         'netCDF reload, pickle, a live shallow copy, one file vs open_mfdataset) look for keys that depend on more '
         'than the geometry; keys are recomputed in fresh interpreters with different PYTHONHASHSEEDs. '
+        'Datasets of realistic size (harness/gen/c16_extra.py: all five convention classes built with numpy, the '
+        'largest multi-dimensional geometry variable of 2*10^3 .. 4*10^5 elements, three of every five bases beyond '
+        '7*10^4) are judged by the direct oracle alone: non-geometry edits and other representations of the same values '
+        '(one / many dask chunks, column-major memory, deep copy) must keep the key; one value changed (by one, or by '
+        'one unit in the last place) at positions spread over the whole array - first, middle, last element, one random '
+        'element per quarter, both sides of two random powers of two (of every power of two from 2^10 up in the largest '
+        'variable) - and one shape / name / attribute edit per '
+        'variable and the convention edits must change it. '
         'A case is non-trivial when it is an edit, a probe or an out-of-range / non-ASCII helper input; distinct = '
         'distinct (convention, netCDF?, edit kind, role of the edited variable, edit parameters).')
 TRUSTED = [
@@ -81,6 +92,7 @@ SIG_ENC = 'cache-key-encoding-dtype-overrides-dtype'
 SIG_PUN = 'cache-key-attr-type-erased'
 SIG_TWO = 'cache-key-ugrid-two-dimension-guess'
 SIG_PREC = 'cache-key-blind-below-storage-precision'
+SIG_BIG = 'cache-key-large-array-value-edit-keeps-key'
 
 
 # --------------------------------------------------------------------------
@@ -188,8 +200,13 @@ class Eval:
         self.cls_id = (cls.__module__, cls.__name__)
         # model input: taken from the xarray objects AFTER the real call (reference counts settle
         # once emsarray's cached properties exist), never from emsarray
-        self.spec = spec_str(self.state)
-        self.vars = vars_str(self.ds, self.state)
+        if case.get('big') is not None:
+            # datasets of realistic size are judged by the direct oracle only (megabytes of values per line are
+            # cheap to hash and expensive to send through the driver)
+            self.spec = self.vars = None
+        else:
+            self.spec = spec_str(self.state)
+            self.vars = vars_str(self.ds, self.state)
 
     def head(self) -> str:
         return f'{self.spec} {hx(self.cls_id[0])} {hx(self.cls_id[1])} {hx(self.version)} {self.vars}'
@@ -742,6 +759,153 @@ def edge_coordinate_bases(ctx, rng) -> list:
     return out
 
 
+# --------------------------------------------------------------------------
+# datasets of realistic size (harness/gen/c16_extra.py): direct oracle only
+
+def big_bases(ctx, rng) -> list:
+    """Bases of all five convention classes whose multi-dimensional geometry variables have the sizes real model
+    grids have: of every five, three between 7 * 10^4 and 4 * 10^5 elements in their largest such variable, two
+    between 2 * 10^3 and 6 * 10^4 (which conventions get which size rotates with the run)."""
+    out = []
+    start = rng.randrange(len(X.CONVS))
+    for k in range(ctx.budget(5, 15)):
+        conv = X.CONVS[(start + k) % len(X.CONVS)]
+        lo, hi = (70_000, 400_000) if (k + k // len(X.CONVS)) % 5 in (0, 2, 3) else (2_000, 60_000)
+        out.append({'big': X.random_big(rng, conv, lo, hi), 'netcdf': False, 'enrich': True, 'stabilise': True,
+                    'edits': []})
+    return out
+
+
+def big_nongeo_edit_sets(rng, ev: Eval) -> list:
+    E = [('add_var:grid', [{'op': 'add_var', 'name': 'extra_a', 'on': 'grid', 'base': rng.randint(0, 99), 'dtype': 'f4',
+                            'attrs': {'units': 'kg', 'standard_name': 'sea_water_mass'}}]),
+         ('change_var', [{'op': 'change_var', 'name': 'eta', 'flat': rng.randint(0, 10 ** 6)}]),
+         ('remove_var', [{'op': 'remove_var', 'name': 'eta'}]),
+         ('time_steps', [{'op': 'time_steps', 'n': rng.choice([1, 3, 5])}]),
+         ('gattr_add', [{'op': 'gattr', 'key': 'institution', 'value': 'x' * rng.randint(1, 40)}]),
+         ('reorder', [{'op': 'reorder', 'seed': rng.randint(0, 10 ** 6)}]),
+         # the same values held another way: one dask chunk, many dask chunks, column-major memory, a deep copy
+         ('chunk', [{'op': 'chunk'}]),
+         ('chunk:several', [{'op': 'chunk', 'size': rng.choice([200, 257, 1000])}]),
+         ('memory_layout', [{'op': 'fortran_layout', 'names': list(ev.state['expected'])}]),
+         ('deep_copy', [{'op': 'copy', 'deep': True}])]
+    return E
+
+
+def run_big_base(ctx, rng, bcase: dict, child_cases: list, child_expect: list) -> None:
+    b = Eval(bcase)
+    conv = b.state['conv']
+    bdesc = {'case': bcase}
+    ctx.count('big-base:' + conv)
+    ctx.evaluated()
+    if not b.ok:
+        ctx.oracle_fail('cache-key-raises-on-valid-dataset', bdesc, f'make_cache_key raised {b.error}')
+        return
+    if b.names != b.state['expected']:
+        ctx.oracle_fail('inventory-mismatch', bdesc,
+                        f"get_all_geometry_names() = {b.names}, the dataset was built with {b.state['expected']}")
+    if b.key != b.key_rec or len(b.key) != 64:
+        ctx.oracle_fail('default-hash-not-blake2b-of-stream', bdesc,
+                        f'make_cache_key(ds) = {b.key}, blake2b-32 of the recorded stream = {b.key_rec}')
+    g0, c0 = geometry_content(b.ds, b.state)
+    largest = max((int(b.ds.variables[n].size) for n in b.state['expected'] if b.ds.variables[n].ndim >= 2), default=0)
+    ctx.count('big-base:largest-nd-variable:' + ('>2^16' if largest > 2 ** 16 else '<=2^16'))
+    child_cases.append(bcase)
+    child_expect.append((b.key, bdesc))
+
+    # ---------- the same geometry, other non-geometry content / other representation: the key must not move ----
+    for kind, edits in big_nongeo_edit_sets(rng, b):
+        case = dict(bcase, edits=bcase['edits'] + edits)
+        try:
+            e = Eval(case)
+        except Exception:  # noqa  -- an edit that cannot be applied to this dataset
+            ctx.count(f'n/a:big:{kind}')
+            continue
+        desc = {'base': bcase, 'edited': case, 'expect': 'same', 'kind': 'big:' + kind}
+        ctx.count(f'big-nongeo:{kind}')
+        ctx.evaluated()
+        ctx.nontrivial(('big', conv, 'N', kind, json.dumps(bcase['big'], sort_keys=True)))
+        if not e.ok:
+            ctx.oracle_fail('cache-key-raises-after-nongeometry-edit', desc,
+                            f'{kind}: make_cache_key raised {e.error} (base key {b.key[:16]}…)')
+            continue
+        if geometry_content(e.ds, e.state) != (g0, c0):
+            raise AssertionError(f'harness: non-geometry edit {kind} altered the geometry')
+        if e.key != b.key:
+            ctx.oracle_fail('cache-key-nongeometry-edit-changes-key', desc,
+                            f'{kind} changed the key {b.key[:16]}… -> {e.key[:16]}… of a dataset whose largest geometry '
+                            f'variable has {largest} elements (streams differ at {first_diff(b.stream, e.stream)})')
+
+    # ---------- one value changed, at positions spread from the first element to the last: the key must move ------
+    expected = list(b.state['expected'])
+    nd = sorted((n for n in expected if b.ds.variables[n].ndim >= 2), key=lambda n: -int(b.ds.variables[n].size))
+    chosen = nd[:1] + rng.sample(nd[1:], max(0, min(2, len(nd) - 1))) + rng.sample([n for n in expected if n not in nd],
+                                                                           min(1, len(expected) - len(nd)))
+    for name in chosen:
+        var = b.ds.variables[name]
+        vals = np.asarray(var.values)
+        many = vals.ndim >= 2
+        # (the largest variable: both sides of EVERY power of two from 2^10 up)
+        for p in X.stratified_positions(rng, int(vals.size), parts=4 if many else 2,
+                                        powers=None if name == chosen[0] else 2 if many else 1):
+            edit = {'op': 'g_value', 'var': name, 'flat': p}
+            if vals.dtype.kind == 'f' and np.isfinite(vals.reshape(-1)[p]) and rng.random() < 0.5:
+                edit['how'] = 'ulp'
+            case = dict(bcase, edits=bcase['edits'] + [edit])
+            try:
+                e = Eval(case)
+            except Exception:  # noqa
+                ctx.count('n/a:big:value')
+                continue
+            index = [int(i) for i in np.unravel_index(p, vals.shape)] if vals.shape else []
+            desc = {'base': bcase, 'edited': case, 'expect': 'differ', 'kind': 'big:value',
+                    'variable': name, 'shape': list(vals.shape), 'index': index}
+            ctx.count('big-geo:value' + (':ulp' if edit.get('how') else ''))
+            ctx.evaluated()
+            ctx.nontrivial(('big', conv, 'G', 'value', name, p, json.dumps(bcase['big'], sort_keys=True)))
+            if not e.ok:
+                ctx.oracle_fail('cache-key-raises-on-valid-dataset', desc,
+                                f'one value of {name} changed: make_cache_key raised {e.error}')
+                continue
+            if geometry_content(e.ds, e.state) == (g0, c0):
+                ctx.count('n/a:big:value:no-change')
+                continue
+            if e.key == b.key:
+                ctx.oracle_fail(SIG_BIG, desc,
+                                f'{name} {vals.dtype.name}{list(vals.shape)}: element {index} (flat position {p} of '
+                                f'{vals.size}) changed from {vals.reshape(-1)[p]!r} to '
+                                f'{np.asarray(e.ds.variables[name].values).reshape(-1)[p]!r}, the key is unchanged '
+                                f'({b.key[:16]}…; {len(b.stream)} bytes were hashed for '
+                                f'{sum(int(b.ds.variables[n].values.nbytes) for n in expected)} bytes of geometry values)')
+            elif p == vals.size - 1 and rng.random() < 0.5:
+                child_cases.append(case)
+                child_expect.append((e.key, desc))
+
+    # ---------- the other single edits (shape, name, attribute, convention), one random kind per variable ----------
+    for kind, name, edits in geo_edit_sets(rng, b, full_vars=0):
+        if kind.startswith('value') or kind == 'attr_reorder':
+            continue
+        case = dict(bcase, edits=bcase['edits'] + edits)
+        try:
+            e = Eval(case)
+        except Exception:  # noqa
+            ctx.count(f'n/a:big:{kind}')
+            continue
+        desc = {'base': bcase, 'edited': case, 'expect': 'differ', 'kind': 'big:' + kind}
+        ctx.count(f'big-geo:{kind}')
+        ctx.evaluated()
+        ctx.nontrivial(('big', conv, 'G', kind, name, json.dumps(edits, sort_keys=True)))
+        if not e.ok:
+            ctx.count(f'geo-err:big:{conv}:{kind}')      # no longer a dataset of the convention
+            continue
+        if geometry_content(e.ds, e.state) == (g0, c0):
+            ctx.count(f'n/a:big:{kind}:no-change')
+            continue
+        if e.key == b.key:
+            ctx.oracle_fail('cache-key-geometry-edit-keeps-key', desc,
+                            f'{kind} on {name or conv} left the key unchanged ({b.key[:16]}…)')
+
+
 def run(ctx) -> None:
     rng = ctx.rng
     items: list = []
@@ -1012,6 +1176,12 @@ def run(ctx) -> None:
         ctx.nontrivial(('malformed', tagm))
         items.append((e.stream_line(), e.stream_out(), {'case': case, 'op': 'stream', 'malformed': True}))
         items.append((e.inv_line(), e.inv_out(), {'case': case, 'op': 'inv', 'malformed': True}))
+
+    # ---- datasets of realistic size: direct oracle only --------------------------------------------
+    t_big = time.time()
+    for bcase in big_bases(ctx, rng):
+        ctx.guarded(lambda: run_big_base(ctx, rng, bcase, child_cases, child_expect), {'case': bcase})
+    ctx.notes.append(f'datasets of realistic size: {round(time.time() - t_big, 1)} s')
 
     # ---- fresh interpreters, different hash seeds ---------------------------------------------
     n_seeds = 3 if ctx.tier == 'quick' else 16
